@@ -284,7 +284,7 @@ class Lexer(object):
             pos = lexer.lexpos
             try:
                 char = lexer.lexdata[pos]
-                while char in ' \t':
+                while char in self.t_ignore:
                     pos += 1
                     char = lexer.lexdata[pos]
                 next_char = lexer.lexdata[pos + 1]
@@ -562,8 +562,6 @@ class Lexer(object):
         )
         """
 
-    t_regex_ignore = ' \t'
-
     def t_regex_error(self, token):
         raise ECMARegexSyntaxError(
             "Error parsing regular expression '%s' at %s:%s" % (
@@ -640,6 +638,8 @@ class Lexer(object):
         # unicode bom
         u'\uFEFF'
     )
+    # white space in front of a regular expression literal is the same
+    t_regex_ignore = t_ignore
 
     t_NUMBER = r"""
     (?:
